@@ -162,7 +162,7 @@ def in_bounds_events(I, it):
             viol.append((e[1], 'read of %r bytes at input offset %r beyond the %r bytes given' % (e[4], e[3].off, e[5]), None))
         elif e[0] == 'oob?' and isinstance(e[3], PtrV) and e[3].obj == 'IN':
             inst, p, n, size = e[1], e[3], e[4], e[5]
-            env = st.find_model([p.off + n - size, p.off], lambda v: v[0] > 0 or v[1] < 0)
+            env = e[6] if len(e) > 6 else st.find_model([p.off + n - size, p.off], lambda v: v[0] > 0 or v[1] < 0)
             if env is not None:
                 viol.append((inst, 'read of %r bytes at input offset %r may lie outside the %r bytes given' % (n, p.off, size), env))
             else:
